@@ -315,6 +315,9 @@ def run_engine_fixture(chk, rid="engine-fixture"):
         from .. import counters, fieldinv, retsum
         intervals.GETTERS.clear()
         intervals.GETTERS.update(retsum.getters(facts))
+        saved_pr = dict(intervals.PROMOTED_RANGES)
+        intervals.PROMOTED_RANGES.clear()
+        intervals.PROMOTED_RANGES.update(retsum.promoted_ranges(facts))
         intervals.COUNTER_FIELDS.clear()
         intervals.COUNTER_FIELDS.update(counters.compute(facts))
         intervals.FIELD_RANGES.clear()
@@ -343,8 +346,8 @@ def run_engine_fixture(chk, rid="engine-fixture"):
                 chk.ob(rid, f"idiom {name}: {len(res.sites) - len(bad)} of {len(res.sites)} site(s) proved", not bad and bool(res.sites),
                        key=f"idiom|{name}", file=b.file, line=b.lo, fn=b.path,
                        detail="a standard safe idiom is no longer proved: " + "; ".join(s["why"] for s in bad)[:200])
-        chk.floor(rid, "traps", nb, 37)
-        chk.floor(rid, "safe idioms", ng, 24)
+        chk.floor(rid, "traps", nb, 39)
+        chk.floor(rid, "safe idioms", ng, 26)
         # the loop census on its own fixtures
         from ..loops import collect_loops
         lsites, _ = collect_loops(facts, [facts.crates[0]])
@@ -364,7 +367,7 @@ def run_engine_fixture(chk, rid="engine-fixture"):
                        key=f"loopidiom|{name}", file=ss[0]["body"].file, line=ss[0]["line"], fn=ss[0]["body"].path,
                        detail="a standard terminating loop is no longer recognised: " + "; ".join(s["why"] for s in ss if not s["ok"])[:200])
         chk.floor(rid, "loop traps", nlb, 9)
-        chk.floor(rid, "loop idioms", nlg, 5)
+        chk.floor(rid, "loop idioms", nlg, 6)
     finally:
         if "saved_pi" in locals():
             intervals.PARAM_INFO = saved_pi
@@ -376,3 +379,6 @@ def run_engine_fixture(chk, rid="engine-fixture"):
         intervals.RET_RANGES.update(saved[2])
         intervals.GETTERS.clear()
         intervals.GETTERS.update(saved[3])
+        if "saved_pr" in locals():
+            intervals.PROMOTED_RANGES.clear()
+            intervals.PROMOTED_RANGES.update(saved_pr)
